@@ -1,3 +1,103 @@
-Require Import Eliot.Model.LogCall.
-Theorem C18_stub : True. Proof. exact I. Qed.
-Print Assumptions C18_stub.
+(* C18 — log_call is transparent: same result, same exceptions, faithful argument log.
+   Statements only; proofs are in Proofs/LogCallProofs.v, the model in Model/LogCall.v.
+
+   wrapper f o parent c   the decorated function (boltons-generated outer function,
+                          getcallargs, logged action, call of the real function)
+   call_fn f c            the undecorated function under Python's binding rule [bind]
+   guards                 wf_sig: what `def` accepts;  no_posonly_kw: no keyword argument
+                          names a positional-only parameter (known findings F3b/F3c);
+                          no_param_named_call: no parameter is called _call (F3e) *)
+From Coq Require Import List PArith ZArith Bool String.
+Require Import Eliot.Model.LogCall Eliot.Proofs.LogCallProofs.
+Import ListNotations.
+
+(* same returned value, same raised exception object, TypeError iff the undecorated call is a
+   TypeError — for every signature, parameter naming, call, option set, body and enclosing action *)
+Theorem C18_outcome : forall (f : fn) (o : opts) (parent : option (list positive)) (c : fcall),
+  wf_sig (f_sig f) = true ->
+  no_param_named_call (f_sig f) ->
+  no_posonly_kw (f_sig f) c ->
+  fst (wrapper f o parent c) = call_fn f c.
+Proof. exact C18_outcome_thm. Qed.
+Print Assumptions C18_outcome.
+
+(* a valid call logs exactly one action; its start message holds Python's bindings without self,
+   restricted to include_args, under the five keys Action._start assigns; its end message holds
+   the result iff include_result, or the exception *)
+Theorem C18_logged : forall (f : fn) (o : opts) (parent : option (list positive)) (c : fcall) (b : bindings),
+  wf_sig (f_sig f) = true ->
+  no_param_named_call (f_sig f) ->
+  no_posonly_kw (f_sig f) c ->
+  bind (f_sig f) c = Ok b ->
+  let t := action_type_of f o in
+  let lvl := match parent with Some l => l | None => [] end in
+  exists start end_ : message,
+    snd (wrapper f o parent c) = [start; end_] /\
+    (forall k, lookup k start =
+       if Pos.eqb k N_action_status then Some (FStatus Started)
+       else if Pos.eqb k N_timestamp then Some FTime
+       else if Pos.eqb k N_task_uuid then Some FUuid
+       else if Pos.eqb k N_action_type then Some (FType t)
+       else if Pos.eqb k N_task_level then Some (FLevel (lvl ++ [1%positive]))
+       else if included o k && negb (Pos.eqb k N_self) then option_map FArg (lookup k b)
+       else None) /\
+    end_ = match f_body f b with
+           | BReturned v =>
+               (if o_include_result o then [(N_result, FResult v)] else []) ++
+               tail_fields Succeeded t (lvl ++ [2%positive])
+           | BRaised e =>
+               [(N_exception, FExcName (RExn e)); (N_reason, FReason (RExn e))] ++
+               tail_fields Failed t (lvl ++ [2%positive])
+           end.
+Proof. exact C18_logged_thm. Qed.
+Print Assumptions C18_logged.
+
+(* the action type defaults to module + "." + qualified name *)
+Theorem C18_type_default : forall f o,
+  o_action_type o = None -> action_type_of f o = (f_module f ++ "." ++ f_qualname f)%string.
+Proof. exact C18_type_default_thm. Qed.
+Print Assumptions C18_type_default.
+
+(* an argument list the function rejects: TypeError, and nothing is logged *)
+Theorem C18_invalid_call : forall f o parent c,
+  no_posonly_kw (f_sig f) c ->
+  bind (f_sig f) c = TypeErr ->
+  wrapper f o parent c = (Raised RTypeError, []).
+Proof. exact C18_invalid_call_thm. Qed.
+Print Assumptions C18_invalid_call.
+
+(* decoration succeeds iff include_args names parameters only (ValueError otherwise) *)
+Theorem C18_decoration : forall f o,
+  decorate_ok f o = true <->
+  match o_include_args o with None => True | Some inc => forall k, In k inc -> In k (names (f_sig f)) end.
+Proof. exact C18_decoration_thm. Qed.
+Print Assumptions C18_decoration.
+
+(* known finding F3b: def f(x, /, **kwargs) called f(1, x=2) *)
+Theorem C18_posonly_refuted :
+  exists (f : fn) (o : opts) (c : fcall),
+    wf_sig (f_sig f) = true /\ no_param_named_call (f_sig f) /\
+    posonly_kw_clash (f_sig f) c = true /\
+    call_fn f c = Returned 500%Z /\
+    wrapper f o None c = (Raised RTypeError, []).
+Proof. exact C18_posonly_refuted_thm. Qed.
+Print Assumptions C18_posonly_refuted.
+
+(* known finding F3c: def h(x, /) called h(x=1) *)
+Theorem C18_posonly_accepted_refuted :
+  exists (f : fn) (o : opts) (c : fcall),
+    wf_sig (f_sig f) = true /\ no_param_named_call (f_sig f) /\
+    call_fn f c = Raised RTypeError /\
+    fst (wrapper f o None c) = Returned 1%Z /\
+    List.length (snd (wrapper f o None c)) = 2.
+Proof. exact C18_posonly_accepted_refuted_thm. Qed.
+Print Assumptions C18_posonly_accepted_refuted.
+
+(* known finding F3e: def f(_call) called f(3) *)
+Theorem C18_param_call_refuted :
+  exists (f : fn) (o : opts) (c : fcall),
+    wf_sig (f_sig f) = true /\ no_posonly_kw (f_sig f) c /\
+    call_fn f c = Returned 7%Z /\
+    wrapper f o None c = (Raised RTypeError, []).
+Proof. exact C18_param_call_refuted_thm. Qed.
+Print Assumptions C18_param_call_refuted.
